@@ -51,6 +51,18 @@ class _Env:
                     y = dfun(y)
                 return y
 
+            @property
+            def c(s):
+                # polynomial coefficients of the local model, per interval: free symbols, recorded
+                if getattr(s, '_c', None) is not None:
+                    return s._c
+                nint = len(s.time) - 1
+                key = 'poly_c_%d' % len(cap.setdefault('poly', []))
+                arr = O([[[S.var('%s_%d_%d_%d' % (key, k, i, j)) for j in range(3)] for i in range(nint)] for k in range(2)])
+                cap['poly'].append(arr)
+                s._c = arr
+                return arr
+
         def CubicSpline(time, y, *a, **k):
             y = S.symnp.asarray(y)
             cap.setdefault('cubic', []).append(y)
@@ -61,10 +73,16 @@ class _Env:
             cap['hermite'] = (y, dy)
             return SplineFn(time, y, given=dy)
 
+        class _Interp:
+            def __init__(s, nint):
+                s.c = O([[[S.var('rot_c_%d_%d_%d' % (k, i, j)) for j in range(3)] for i in range(nint)] for k in range(4)])
+                cap['rot_c'] = s.c
+
         class RotationSpline:
             def __init__(s, time, rot):
                 s.time, s.mats = time, rot.m
                 cap['mat_ib'] = rot.m
+                s.interpolator = _Interp(len(time) - 1)
 
             def __call__(s, t, order=0):
                 if t is not s.time or order != 1:
@@ -191,6 +209,70 @@ def section_rate(rep, form, mutate=None):
     for i, nm in enumerate(('roll', 'pitch', 'heading')):
         Z('returned %s = supplied' % nm, J(traj[nm].values[k]).part(0) - J(rph[k][i]).part(0), 'table shape')
     rep.run.encode(SIM.generate_imu, E.gravitation_ecef, T.lla_to_ecef, T.mat_en_from_ll, T.mat_from_rph)
+    return obls
+
+
+def section_increment_wiring(rep, mutate=None):
+    """increment-type branch of generate_imu: with the spline polynomial coefficients as free symbols
+    of the local model, the returned readings are _compute_increment_readings applied to the
+    rotation-vector coefficients of each interval and to the specific force (value and slope)
+    resolved in the START-of-interval body frame; the first sample is duplicated; one row per stamp"""
+    import numpy as np
+    import z3
+    from .. import symreal as S, enga
+    env = _Env(mutate, order=0)
+    m, cap = env.m, env.cap
+    SIM, T, E = m['SIM'], m['T'], m['E']
+    J, O = S.J, S.O
+    n = 3
+    ts = [S.var('T%d' % k) for k in range(n)]
+    S.C.dom += [z3.Real('T1') > z3.Real('T0'), z3.Real('T2') > z3.Real('T1'), z3.Real('T0') >= 0, z3.Real('T2') <= 100]
+    time_arr = O(ts)
+    lla = np.empty((n, 3), dtype=object)
+    rph = np.empty((n, 3), dtype=object)
+    for k in range(n):
+        lla[k] = [S.declare_angle('lat%d' % k, -85, 85), S.var('lon%d' % k), S.var('alt%d' % k)]
+        rph[k] = [S.var('roll%d' % k), S.declare_angle('pitch%d' % k, -85, 85), S.var('head%d' % k)]
+        S.C.dom += [z3.Real('alt%d' % k) >= -1000, z3.Real('alt%d' % k) <= 30000]
+    # record what _compute_increment_readings is called with and return recognisable tokens
+    calls = {}
+
+    def fake(dt, a, b, c, d, e):
+        calls['args'] = (dt, a, b, c, d, e)
+        nint = len(a)
+        return (O([[S.var('G_%d_%d' % (k, i)) for i in range(3)] for k in range(nint)]), O([[S.var('A_%d_%d' % (k, i)) for i in range(3)] for k in range(nint)]))
+    enga._set(SIM, '_compute_increment_readings', fake)
+    cap.clear()
+    traj, imu = SIM.generate_imu(time_arr, lla, rph, None, 'increment')
+    meta = {'check': 'wiring'}
+    obls = []
+    Z = lambda name, e_: obls.append(enga.zero('increment wiring: ' + name, e_, 'increment-type wiring', meta=meta))
+    H = lambda name, ok: obls.append(enga.holds('increment wiring: ' + name, z3.BoolVal(bool(ok)), 'increment-type wiring', meta=meta))
+    H('one row per stamp', len(imu) == n and len(traj) == n)
+    H('_compute_increment_readings called once with per-interval arrays', 'args' in calls and len(calls['args'][1]) == n - 1)
+    if 'args' not in calls or len(imu) != n:
+        return obls
+    dt, a, b, c, d, e = calls['args']
+    rc = cap['rot_c']
+    acc = cap['poly'][-1]          # coefficients of the acceleration polynomial (derivative of the velocity spline)
+    M, g = cap['mat_ib'], cap['g_i']
+    gy = imu[['gyro_x', 'gyro_y', 'gyro_z']].values
+    ac = imu[['accel_x', 'accel_y', 'accel_z']].values
+    for k in range(n - 1):
+        Z('dt of interval %d = stamp difference' % k, J(np.asarray(dt, dtype=object).reshape(-1)[k]) - (ts[k + 1] - ts[k]))
+        dk = np.dot(M[k].T, acc[1][k] - g[k])
+        ek = np.dot(M[k].T, acc[0][k] - (g[k + 1] - g[k]) / (ts[k + 1] - ts[k]))
+        for i in range(3):
+            Z('interval %d: a = linear rotation-vector coefficient [%d]' % (k, i), J(a[k][i]) - rc[2][k][i])
+            Z('interval %d: b = quadratic coefficient [%d]' % (k, i), J(b[k][i]) - rc[1][k][i])
+            Z('interval %d: c = cubic coefficient [%d]' % (k, i), J(c[k][i]) - rc[0][k][i])
+            Z('interval %d: d = C_ib(start)^T (acceleration - gravitation at the start) [%d]' % (k, i), J(d[k][i]) - dk[i])
+            Z('interval %d: e = C_ib(start)^T (slope of acceleration - slope of gravitation) [%d]' % (k, i), J(e[k][i]) - ek[i])
+            Z('row %d gyro = increment of interval %d [%d]' % (k + 1, k, i), J(gy[k + 1][i]) - S.var('G_%d_%d' % (k, i)))
+            Z('row %d accel = increment of interval %d [%d]' % (k + 1, k, i), J(ac[k + 1][i]) - S.var('A_%d_%d' % (k, i)))
+    for i in range(3):
+        Z('first sample duplicated: gyro[0] = gyro[1] [%d]' % i, J(gy[0][i]) - J(gy[1][i]))
+        Z('first sample duplicated: accel[0] = accel[1] [%d]' % i, J(ac[0][i]) - J(ac[1][i]))
     return obls
 
 
@@ -333,6 +415,8 @@ CANARIES = [
     ('velocity without Earth rotation term', 'rate', ('SIM', 'generate_imu', 'mat_in, v_i_spline(time) - np.cross(earth_rate_i, r_i), True)', 'mat_in, v_i_spline(time), True)')),
     ('increment series coefficient omega[2]', 'inc', ('SIM', '_compute_increment_readings', 'omega[2] = 3 * c - 0.5 * ab', 'omega[2] = 3 * c + 0.5 * ab')),
     ('increment series coefficient f[2]', 'inc', ('SIM', '_compute_increment_readings', 'f[2] = -ae - bd + 0.5 * np.cross(a, ad)', 'f[2] = -ae - bd - 0.5 * np.cross(a, ad)')),
+    ('increment wiring: end-of-interval attitude', 'wiring', ('SIM', 'generate_imu', 'd = util.mv_prod(mat_ib[:-1], d, at=True)', 'd = util.mv_prod(mat_ib[1:], d, at=True)')),
+    ('increment wiring: gravitation slope dropped', 'wiring', ('SIM', 'generate_imu', 'e = a_s.c[0] - np.diff(g_i, axis=0) / dt', 'e = a_s.c[0]')),
     ('increment series: integration weight', 'inc', ('SIM', '_compute_increment_readings', 'accels += f[k] / (k + 1)', 'accels += f[k] / (k + 2)')),
 ]
 
@@ -359,7 +443,7 @@ def run(run):
     rep = enga.AReport(run, box=box, consts=dict(enga.WGS84))
     run.assume('scipy CubicSpline / CubicHermiteSpline / RotationSpline are IDEAL interpolants of an arbitrary smooth motion: node values (and supplied node derivatives) reproduced, higher derivatives those of the underlying function (time-jets of order %d at each row). The size and decay of the real interpolation error ("within interpolation error that shrinks") is outside' % ORD,
                'decomposition at the scipy boundary: (L1) position nodes = inertial position, (L2) gravitation array, (L3) attitude nodes, (F) readings = definition applied to the captured quantities, (K) rotating-frame kinematics glue lemma over a free curve: together they give specific force and body rate of the motion, i.e. the C01 oracle equations; (V) returned velocity; (H1) Hermite node derivatives',
-               'covered: position-only and position+velocity input forms, rate sensors; the closed-form increment integrals of _compute_increment_readings (gyro exact through dt^4, accelerometer through dt^3: the code keeps terms through second order in the rotation vector); a body at rest. NOT covered: the initial-position form (antiderivative splines and the fixed-point latitude iteration) and the wiring of spline polynomial coefficients into the increment-type branch of generate_imu; Turntable',
+               'covered: position-only and position+velocity input forms, rate sensors; the closed-form increment integrals of _compute_increment_readings (gyro exact through dt^4, accelerometer through dt^3: the code keeps terms through second order in the rotation vector); a body at rest. the wiring of the increment-type branch of generate_imu (spline polynomial coefficients as free symbols of the local model: rotation-vector coefficients, specific force value and slope in the start-of-interval body frame, first sample duplicated). NOT covered: the initial-position form (antiderivative splines and the fixed-point latitude iteration); that the spline coefficients scipy returns are those of the motion (interpolation error); Turntable',
                'symbolic ellipsoid constants; |lat| <= 85 deg; exact real arithmetic')
     timeout = 60 if run.tier == 'quick' else 300
     for form in ('position', 'position+velocity'):
@@ -372,11 +456,13 @@ def run(run):
     rep.finish(rep.batch(section_kinematics(rep), timeout_s=timeout), PROP)
     rep.finish(rep.batch(section_stationary(rep), timeout_s=timeout), PROP)
     rep.finish(rep.batch(section_increments(rep, 5), timeout_s=timeout), PROP)
+    rep.finish(rep.batch(section_increment_wiring(rep), timeout_s=timeout), PROP)
     rep.selfcheck(PROP, [{'check': 'rate', 'point': {}, 'params': {'form': 'position'}}, {'check': 'rate', 'point': {}, 'params': {'form': 'position+velocity'}},
                          {'check': 'stationary', 'point': {}, 'params': {'form': 'position'}}] + [{'check': 'increments', 'point': pt} for pt in rep.points((3 if run.tier == 'quick' else 20))])
     for name, sec, spec in CANARIES:
         try:
-            obls = section_rate(rep, 'position', _mut(spec)) if sec == 'rate' else section_increments(rep, 5, _mut(spec))
+            obls = section_rate(rep, 'position', _mut(spec)) if sec == 'rate' else (
+                section_increment_wiring(rep, _mut(spec)) if sec == 'wiring' else section_increments(rep, 5, _mut(spec)))
         except common.HarnessError as e:
             run.canary(name, False, str(e))
             continue
@@ -416,9 +502,11 @@ def replay(spec):
         sc = max(1.0, np.abs(np.hstack([a, b, c, d, e])).max())
         for idx, (p, what) in enumerate(((5, 'gyro'), (4, 'accel'))):
             e1, e2 = errs[0.04][idx], errs[0.02][idx]
-            bound = 5 * sc ** p * 0.04 ** p + 1e-9
-            if e1 > bound and not (e2 > 1e-10 and e1 / e2 > 2 ** (p - 0.7)):
-                fails.append('%s increment error %.3g at dt=0.04 (%.3g at 0.02) is not O(dt^%d)' % (what, e1, e2, p))
+            # the error must fall at the documented order on halving (rounding-level errors exempt)
+            if e1 > 3e-9 * sc and not (e2 > 0 and e1 / e2 > 2 ** (p - 0.6)):
+                fails.append('%s increment error %.3g at dt=0.04 (%.3g at 0.02, ratio %.2f) does not fall like dt^%d' % (what, e1, e2, e1 / max(e2, 1e-300), p))
+            elif e1 > 50 * sc ** (p + 1) * 0.04 ** p:
+                fails.append('%s increment error %.3g at dt=0.04 far above the O(dt^%d) level' % (what, e1, p))
         return {'violated': bool(fails), 'detail': fails}
     # smooth analytic motion
     form = (spec.get('params') or {}).get('form', 'position')
